@@ -48,6 +48,7 @@ func (l *c17limiter) AllowN(now time.Time, n int) bool {
 
 type c17rec struct {
 	stream int
+	csrc   uint32
 	seq    uint16
 	b0, b1 byte
 	n      int
@@ -68,6 +69,9 @@ func HC17Pacing() {
 		return interceptor.RTPWriterFunc(func(h *rtp.Header, p []byte, _ interceptor.Attributes) (int, error) {
 			if nout < len(out) {
 				r := c17rec{stream: stream, seq: h.SequenceNumber, n: len(p)}
+				if len(h.CSRC) == 1 {
+					r.csrc = h.CSRC[0]
+				}
 				if len(p) > 0 {
 					r.b0 = p[0]
 				}
@@ -84,21 +88,23 @@ func HC17Pacing() {
 	w1 := i.BindLocalStream(&interceptor.StreamInfo{SSRC: 2}, mk(1))
 	var acc [8]c17rec
 	buf := make([]byte, 2)
-	hdr := &rtp.Header{Version: 2}
+	hdr := &rtp.Header{Version: 2, CSRC: []uint32{0}}
 	now := time.Unix(1700000000, 0)
 	for k := 0; k < npk; k++ {
 		b := vr.NondetBytes(2)
 		n := vr.Concretize(vr.NondetInt(0, 2))
 		buf[0], buf[1] = b[0], b[1]
 		hdr.SequenceNumber = uint16(100 + k)
+		cs := vr.NondetU32()
+		hdr.CSRC[0] = cs
 		st := 0
 		w := w0
 		if vr.NondetBool() {
 			st, w = 1, w1
 		}
 		got, werr := w.Write(hdr, buf[:n], nil)
-		vr.Assert(werr == nil && got == 12+n, "packet accepted")
-		acc[k] = c17rec{stream: st, seq: uint16(100 + k), n: n}
+		vr.Assert(werr == nil && got == 16+n, "packet accepted")
+		acc[k] = c17rec{stream: st, csrc: cs, seq: uint16(100 + k), n: n}
 		if n > 0 {
 			acc[k].b0 = b[0]
 		}
@@ -107,6 +113,7 @@ func HC17Pacing() {
 		}
 		buf[0], buf[1] = 0xEE, 0xEE // caller reuses its buffers
 		hdr.SequenceNumber = 0xEEEE
+		hdr.CSRC[0] = 0xEEEEEEEE
 		if vr.NondetBool() {
 			now = now.Add(5 * time.Millisecond)
 			vr.FireTickers(now)
@@ -120,7 +127,7 @@ func HC17Pacing() {
 		for k := 0; k < npk; k++ {
 			if k < nout {
 				vr.Assert(out[k] == acc[k], "released in acceptance order, intact, to its own stream's writer")
-				vr.Assert(lim.charged[k] == 8*(12+acc[k].n), "charged the packet's size in bits")
+				vr.Assert(lim.charged[k] == 8*(16+acc[k].n), "charged the packet's size in bits")
 			}
 		}
 	}
